@@ -53,7 +53,7 @@ theorem insertDefTableOpts_eq (ed : Editor α) (pos : Int) (defs : List (List α
 theorem repeatStr_two (s : List α) : repeatStr s 2 = pure (s ++ s) := by
   simp [repeatStr, List.replicate]
 
-theorem flatten_map_singleton {β γ : Type} (F : β → List γ) (G : β → γ) (l : List β) (h : ∀ i, F i = [G i]) :
+theorem flatten_map_singleton_list {β γ : Type} (F : β → List γ) (G : β → γ) (l : List β) (h : ∀ i, F i = [G i]) :
     (l.map F).flatten = l.map G := by
   induction l with
   | nil => rfl
@@ -62,7 +62,7 @@ theorem flatten_map_singleton {β γ : Type} (F : β → List γ) (G : β → γ
 theorem flatten_map_range {γ : Type} (F : Nat → List γ) (G : Nat → γ) (n n' : Nat) (h : ∀ i, F i = [G i]) (hn : n = n') :
     ((List.range n).map F).flatten = (List.range n').map G := by
   subst hn
-  exact flatten_map_singleton F G _ h
+  exact flatten_map_singleton_list F G _ h
 
 theorem block_line_last (ls sep : List _) (tr : Bool) (hb : ls ≠ []) :
     (Block.mk (α := α) ls sep tr).line ((ls.length : Int) - 1) = pure (ls.getD (ls.length - 1) []) := by
